@@ -51,11 +51,34 @@ def source_name_case(rng):
         w.emit('xlinks src %s' % h.slot)
     return w.lines
 
+def feature_case(rng):
+    """tags and multi-tags with several features (some on the same array); arrays are deleted one by one: the features that lost
+    their array stay listed, the others are still found by id and through their array's name and id, in creation order"""
+    w = World(rng, names=PLAIN)
+    w.open('ow')
+    b = w.mk('B', None, name='b')
+    arrs = [w.mk('A', b, name=n, extra=[3]) for n in ['arr0', 'arr1', 'arr2', 'x.y', 'ümlaut €']]
+    holders = [w.mk('T', b, name='t'), w.mk('M', b, name='m', extra=arrs[0])]
+    for h in holders:
+        for a in [rng.choice(arrs) for _ in range(rng.randint(2, 5))]:
+            w.mk('R', h, name='x', extra=a)
+    if rng.random() < 0.4: w.reopen('rw')
+    victims = arrs[1:]; rng.shuffle(victims)
+    for v in [None] + victims[:rng.randint(1, 3)]:
+        if v is not None: w.delete(v, rng.choice(['name', 'handle']))
+        for h in holders:
+            w.emit('xcheck R %s' % h.slot); w.emit('xfeat %s' % h.slot)
+    w.reopen(rng.choice(['ro', 'rw']))
+    for h in holders:
+        w.emit('xcheck R %s' % h.slot); w.emit('xfeat %s' % h.slot)
+    return w.lines
+
 def cases(tier, seed, rng):
     from vlib.runner import Case
     n = 60 if tier == 'quick' else 1500
     out = [Case(history(rng, tier, k % 3 != 0), 'gen:names' + ('-uuid' if k % 3 != 0 else '')) for k in range(n)]
     out += [Case(source_name_case(rng), 'gen:pattern-like-source-names') for _ in range(4 if tier == 'quick' else 60)]
+    out += [Case(feature_case(rng), 'gen:features-by-data-array') for _ in range(8 if tier == 'quick' else 150)]
     return out
 
 def nontrivial(case, tags):
